@@ -25,6 +25,13 @@ CLAIMED["C13"] = dict(
     note="Trusted: as C14; the presence model answers on the request's own grid the way Prometheus does (float seconds parsed to milliseconds). Map iteration order inside MergeRanges is not schedule-controlled (it is followed by a sort today).",
 )
 
+CLAIMED["C16"] = dict(
+    design="5.7",
+    technique="deterministic simulation: real SeriesCheck -> real promapi -> simulated Prometheus API evaluated by the real PromQL engine over a generated in-memory TSDB; fake clock fixes 'now'; seeded schedules, failover/chaos/outage fault plans and multi-round watch histories; verdicts compared with direct evaluation on the same database",
+    text="Clause (a) (no 'missing' verdict for a selector whose instant query returns series now) is asserted under every schedule, fault plan and round; clause (b) (a Bug for a selector whose metric has no sample in the lookback window, is not produced by a rule of the set and is not exempted) is asserted in fault-free runs and in runs where a healthy replica absorbs the faults, relaxed to 'Bug or unable-to-run-checks' when faults can legitimately prevent an answer. Later rounds advance the clock by 15 min - 4 h and only append samples (no back-fill), so stale cached answers surface as false verdicts.",
+    note="Trusted: as C14, plus the vendored PromQL engine (real code) over a hand-written storage.Queryable and a hand-written HTTP/JSON API layer (stub). Expression shapes with fallbacks (or / unless / absent) and ALERTS selectors are excluded from clause (b) as documented by pint. Round gaps are a harness bound (>= 15 min), not a copy of pint's cache constants.",
+)
+
 NA = {
     "C01": "pure function of the file bytes (agreement of two acceptors): no schedule, clock, fault or peer for a simulator to own; deciding it is differential input generation, which this task's technique family excludes",
     "C02": "totality of a pure function of (bytes, parser mode): nothing time-, schedule- or fault-dependent in the anchored code",
